@@ -55,6 +55,19 @@ bool TemporalMetricStorage::buildMetrics(CollectorHandle *collector,
   // no other reader configured to collect those data.
   if (collectors.size() == 1 && aggregation_temporarily == AggregationTemporality::kDelta)
   {
+    // Remember when this collector collected last: its next delta interval starts there.
+    auto last_reported = last_reported_metrics_.find(collector);
+    if (last_reported != last_reported_metrics_.end())
+    {
+      last_collection_ts                  = last_reported->second.collection_ts;
+      last_reported->second.collection_ts = collection_ts;
+    }
+    else
+    {
+      last_reported_metrics_.insert(std::make_pair(
+          collector, LastReportedMetrics{std::unique_ptr<AttributesHashMap>(new AttributesHashMap),
+                                         collection_ts}));
+    }
     // If no metrics, early return
     if (delta_metrics->Size() == 0)
     {
@@ -64,7 +77,7 @@ bool TemporalMetricStorage::buildMetrics(CollectorHandle *collector,
     MetricData metric_data;
     metric_data.instrument_descriptor   = instrument_descriptor_;
     metric_data.aggregation_temporality = AggregationTemporality::kDelta;
-    metric_data.start_ts                = sdk_start_ts;
+    metric_data.start_ts                = last_collection_ts;
     metric_data.end_ts                  = collection_ts;
 
     // Direct conversion of delta metrics to point data
